@@ -91,6 +91,11 @@ def concat(interp, a, b):
     r = wrap(t)
     if isinstance(r, SStr):
         note_concat(interp, r.t, [ta, tb])
+        # other measures over explicit concatenation (pyvc.texts: line_body)
+        interp.st.ghost.setdefault('__explicit_concats__', []).append((r.t, [ta, tb]))
+        hook = interp.st.ghost.get('__on_concat__')
+        if hook is not None:
+            hook(interp, r.t, [ta, tb])
     return r
 
 
